@@ -23,7 +23,8 @@ LEVEL_TEXT = ("Operation sequences over {create, get, update, delete, cleanup(ma
               ' Also an initialize without an id.'
               ' Every case also runs under the dependency-free validation backend.'
               ' Also requests in flight on a session while the expiry sweep runs, under both validation backends.'
-              ' Also client info carrying newer schema members and vendor extensions.')
+              ' Also client info carrying newer schema members and vendor extensions.'
+              ' Also several clients sending the very same clientInfo; the controlled clock covers every server-side module that reads time.')
 LEVEL_NOTE = ("Trusted: the reference model (30 lines) and the clock patch on chuk_mcp.server.session.memory.time. "
               "Only the in-memory manager shipped with the library is exercised.")
 RULE = ("sequence of operations; non-trivial = contains at least one creating op followed by another op; distinct = "
